@@ -123,6 +123,10 @@ def cases(ctx):
         # memory (drop_sel / expand_dims / save_full_ds): everything harvested in between must reach the disk
         chunks = rng.choice([None, None, None, None, 1, 2, {"a": 1}])
         lazy = chunks is not None and engine == "h5netcdf" and not mem_only
+        if engine == "h5netcdf" and not mem_only and not lazy and rng.random() < 0.3:
+            for st in steps:
+                if rng.random() < 0.5:
+                    st["call_chunks"] = rng.choice([1, 2, {"a": 1}])
         if lazy and rng.random() < 0.7:
             # one lazily chunked session saving several times in a row without a reload in between (drop_sel and
             # expand_dims work on the dataset in memory): every save replaces the file the dask arrays read from
@@ -201,6 +205,8 @@ def run_case(ctx, case):
     dims = ["a", "b"]
     model = {}                 # coordinate tuple (in `dims` order) -> {var: value}
     axes = {"a": set(), "b": set()}
+    # some session of this process keeps (or will keep) the data file open for lazy reading
+    lazyish = bool(hkw) or (engine == "h5netcdf" and any(st.get("call_chunks") for st in case["steps"]))
     h = xyzpy.Harvester(new_runner(0), data_name=data_name, engine=engine, **hkw)
     alive = [h]                # every session opened so far stays open (a long-lived object in another notebook)
     hist = []
@@ -316,9 +322,14 @@ def run_case(ctx, case):
             st = dict(st, new_session=False)
             if op == "save_merge":
                 op = "add_ds"
-        if hkw and op == "save_merge":
+        if lazyish and op == "save_merge":
             op = "add_ds"       # (a bare save_merge_ds rewrites the file in place: HDF5 refuses that while a lazy harvester of the same process has it open)
         sync = not case["mem_only"] and istep >= case.get("unsynced_prefix", 0) and not st.get("nosync")
+        ck = {}
+        if st.get("call_chunks") and engine == "h5netcdf" and not case["mem_only"] and sync and op in ("combos", "cases", "add_ds"):
+            # chunks named at the call (documented on add_ds / harvest_*): this merge happens lazily over the file
+            ck = {"chunks": st["call_chunks"]}
+            ctx.count("harvests_with_chunks_named_at_the_call")
         if st.get("nosync"):
             ctx.count("unsynced_steps_after_the_file_exists")
         if not sync and not case["mem_only"]:
@@ -398,7 +409,7 @@ def run_case(ctx, case):
                         apply_model(pts, ver, policy)
                     except Conflict:
                         expect_conflict = True
-                    h.harvest_combos(combos, overwrite=policy, sync=sync, verbosity=0)
+                    h.harvest_combos(combos, overwrite=policy, sync=sync, verbosity=0, **ck)
                     desc = "harvest_combos(%s, overwrite=%s, v%d)" % ({k: ("..." if v is ... else v) for k, v in combos.items()}, policy, ver)
                 elif op == "cases":
                     pts = [{"a": a, "b": b} for a, b in st["pts"]]
@@ -408,7 +419,7 @@ def run_case(ctx, case):
                         apply_model(pts, ver, policy)
                     except Conflict:
                         expect_conflict = True
-                    h.harvest_cases([dict(p) for p in pts], overwrite=policy, sync=sync, verbosity=0)
+                    h.harvest_cases([dict(p) for p in pts], overwrite=policy, sync=sync, verbosity=0, **ck)
                     desc = "harvest_cases(%s, overwrite=%s, v%d)" % ([tuple(p.values()) for p in pts], policy, ver)
                 elif op in ("add_ds", "save_merge"):
                     pts = [{"a": a, "b": b} for a in st["a"] for b in st["b"]]
@@ -420,7 +431,7 @@ def run_case(ctx, case):
                     except Conflict:
                         expect_conflict = True
                     if op == "add_ds":
-                        h.add_ds(new_ds, overwrite=policy, sync=sync)
+                        h.add_ds(new_ds, overwrite=policy, sync=sync, **ck)
                         desc = "add_ds(%d points, overwrite=%s, v%d)" % (len(pts), policy, ver)
                     else:
                         h = None
@@ -451,7 +462,7 @@ def run_case(ctx, case):
                             model[(10,) + c] = model.pop(c)
                     else:
                         desc = "save_full_ds() after un-synced harvests"
-                        if h.full_ds is not None and hkw:
+                        if h.full_ds is not None and lazyish:
                             # (a bare save_full_ds() of a lazily chunked harvester writes over the very file its arrays
                             #  read from, which HDF5 refuses loudly; handing the dataset over is the form that can work)
                             desc = "save_full_ds(full_ds) after un-synced harvests"
